@@ -237,8 +237,27 @@ fn directed_input(op: &str, n: usize, a: &[u64], rng: &mut Rng) -> Vec<u64> {
     img.to_blocks()
 }
 
+/// The formatting traits with the format spec as an argument: width, fill, alignment, precision, `#`, `+`, `0`.
+/// Whatever a spec does to the text, it must do the same for both types.
+fn exec_fmt<S: Tbl>(ctx: &mut Ctx, ev: &Ev) {
+    let n = ev.n;
+    ctx.event(&format!("fmt-specs|N={}", n), ev, Model::from_blocks(n, &ev.tabs[0]).nontrivial());
+    let s = S::t_from_blocks(n, &ev.tabs[0]);
+    let d = Lut::from_blocks(n, &ev.tabs[0]);
+    match guard(|| (vmon::fmtprobe::all_spec_outputs(&s), vmon::fmtprobe::all_spec_outputs(&d))) {
+        Outcome::Returned((a, b)) => {
+            ctx.checked("static-equals-dynamic", a.len() as u64);
+            if let Some(((spec, x), (_, y))) = a.iter().zip(b.iter()).find(|(x, y)| x.1 != y.1) {
+                ctx.violate("static-equals-dynamic", ev, "format-spec", format!("format spec {} prints the LutN as {:?} and the Lut as {:?}", spec, x, y));
+            }
+        }
+        Outcome::Panicked(m) => ctx.violate("static-equals-dynamic", ev, "format-spec-panic", format!("formatting with a format spec panicked: {}", m)),
+    }
+}
+
 fn exec(ctx: &mut Ctx, ev: &Ev) {
     match ev.ty.as_str() {
+        "fmt" => with_static!(ev.n, S => exec_fmt::<S>(ctx, ev)),
         "iter" => with_static!(ev.n, S => exec_iter::<S>(ctx, ev)),
         "diff" => with_static!(ev.n, S => exec_diff::<S>(ctx, ev)),
         "random" => with_static!(ev.n, S => exec_random::<S>(ctx, ev)),
@@ -345,6 +364,10 @@ fn main() {
                     e.ints = vmon::iterprobe::script_to_ints(fresh, &script);
                     exec(ctx, &e);
                 }
+                for _ in 0..if thorough { 300 } else { 12 } {
+                    let (_, a) = gen::any_fam(n, &mut rng);
+                    exec(ctx, &Ev::new("fmt-specs", "fmt", n).tab(&a));
+                }
                 for other in 0..=13usize {
                     for _ in 0..if thorough { 20 } else { 3 } {
                         let (_, a) = gen::any_fam(other, &mut rng);
@@ -425,6 +448,7 @@ fn main() {
         required.push(format!("conv-tryfrom|N={}", n));
         required.push(format!("random-wellformed|N={}", n));
         required.push(format!("iter-script|N={}", n));
+        required.push(format!("fmt-specs|N={}", n));
     }
     for n in 3..=6 {
         required.push(format!("conv-int|N={}", n));
